@@ -487,6 +487,7 @@ pub fn structural(ctx: &Ctx, rng: &mut Rng, o: &mut Out) {
 /// `want` = the reference reading (every spelling of a bound variable replaced by its captured text);
 /// `None` = no statement (variables that are not bound: reported by the op only)
 pub fn scripted(o: &mut Out, rep_cases: &mut usize, oracle_cases: &mut usize) {
+  let mut node_cases = 0usize;
   use SupportLang::*;
   let cases: Vec<(SupportLang, &str, &str, &str, Option<&str>, &str)> = vec![
     (JavaScript, "foo()", "foo($$$ARGS)", "bar($$$ARGS)", Some("bar()"), "an ellipsis variable bound to no node"),
@@ -548,6 +549,20 @@ pub fn scripted(o: &mut Out, rep_cases: &mut usize, oracle_cases: &mut usize) {
       None => json!("no-match"),
     });
     o.op("structural_replace", json!({"t": tid, "r": rid, "mc": expando.to_string(), "env": env_json(&nm, &ids)}), real.clone());
+    // a single NODE of another document as the replacement (`impl Replacer for Node`): the text
+    // inserted is that node's own text, whatever the edited document holds at its offsets
+    for rn in rroot.root().dfs().filter(|x| x.is_named() && x.range().len() > 0).take(3) {
+      let want = rn.text().to_string();
+      let got = guard(|| match root.replace(&pat, rn.clone()) {
+        Some(e) => json!(String::from_utf8_lossy(&e.inserted_text)),
+        None => json!("no-match"),
+      });
+      node_cases += 1;
+      if got != json!(want) {
+        o.oracle("node-replacer", false, json!({"fp": "a node of another document as replacement: the inserted text is not that node's text",
+          "lang": lang.to_string(), "pattern": ptext, "matched": doc_text, "replacement_node": want, "got": got}));
+      }
+    }
     *rep_cases += 1;
     if let Some(want) = want {
       *oracle_cases += 1;
@@ -559,6 +574,7 @@ pub fn scripted(o: &mut Out, rep_cases: &mut usize, oracle_cases: &mut usize) {
       }
     }
   }
+  o.oracle("node-replacer", true, json!({"cases": node_cases}));
 }
 
 /// What the structural replacer (a parsed tree as replacement, a library-only entry point) does with
